@@ -1,12 +1,12 @@
 package engines
 
 import (
-	"regexp"
 	"bytes"
 	"fmt"
 	"io"
 	"os"
 	"path/filepath"
+	"regexp"
 	"sort"
 	"strings"
 	"time"
